@@ -16,7 +16,7 @@ EXPLANATION = (
     "unchecked access in the module, so no write can land outside the view's storage; (delegation) stroke_rect, "
     "draw_polygon and Painter write only through fill_rect / draw_line. Hence no primitive can panic on or write outside "
     "the image because of where the shape lies. That the pixels written are inside the *shape*, the contour-tracing half of "
-    "the property, and arithmetic overflow for coordinates near i32::MAX are not decided.")
+    "the property, and arithmetic overflow for coordinates near i32::MAX are not decided. (edge-compare) a point coordinate or Rect top / left compared with a value read from rows() / cols() uses >= or <, since a coordinate equal to the size is outside; clamp_to_bounds clamps to size - 1. (fill-iter) the polygon fill iterator ends a scan line when the cursor has reached or passed the right bound (or drops the edges of an empty polygon), so filling terminates for degenerate polygons.")
 ASSUMPTIONS = ["Bresenham points between two points of the image rectangle stay in that rectangle (a lemma about the iterator, not checked)",
                "rten-tensor's checked indexing (C06)"]
 CRATE = 'rten_imageproc'
@@ -32,6 +32,8 @@ def run(ctx):
     fns = scope(fb)
     ctx.floor('C36.writes', 'functions in rten_imageproc::drawing', len(fns), 15)
     writes(ctx, fb, fns)
+    edge_strictness(ctx, fb, fns)
+    fill_iter(ctx, fb, fns)
     no_unsafe(ctx, fb, fns)
 
 
@@ -142,6 +144,106 @@ def writes(ctx, fb, fns):
             via = sorted(x for x in callees if x in ('fill_rect', 'draw_line', 'draw_polygon'))
             ctx.inst(R, 'delegates:' + short, short not in direct and bool(via), '%s writes only through %s' % (short, via) if short not in direct and via else
                      '%s writes pixels directly or through no clipped primitive' % short, f.loc())
+
+
+def edge_strictness(ctx, fb, fns):
+    """an inclusive coordinate (Point x / y, Rect top / left) equal to the image's height / width is outside the image:
+    a comparison of one against a value read from rows() / cols() must be >= or <, never > or <="""
+    R = 'C36.writes'
+    n = 0
+    SWAP = {'Lt': 'Gt', 'Gt': 'Lt', 'Le': 'Ge', 'Ge': 'Le'}
+
+    def is_size(op):
+        og = _deep_origins(f, op)
+        return any(o[0] == 'call' and re.search(r'::(rows|cols)$', o[1] or '') for o in og) and not any(o[0] == 'binop' for o in og)
+
+    def is_coord(op):
+        og = f.origins(op)
+        if any(o[0] == 'binop' for o in og):
+            return False
+        if any(o[0] == 'param' and len(o) > 2 and o[2] and o[2][-1] in ('x', 'y') for o in og):
+            return True
+        return any(o[0] == 'call' and re.search(r'shapes::Rect(<.*>)?::(top|left)$|shapes::Rect::<.*>::(top|left)$', o[1] or '') for o in og)
+
+    for f in fns:
+        short = f.path.replace(MOD, '')
+        k = 0
+        for i, b in enumerate(f.bbs):
+            if b.get('c') or i not in f.live():
+                continue
+            for st in b['s']:
+                if not (st[0] == '=' and st[2][0] == 'bin' and st[2][1] in SWAP):
+                    continue
+                op, a, c2 = st[2][1], st[2][2], st[2][3]
+                if a[0] == 'k' or c2[0] == 'k':
+                    continue
+                sa, sb = is_size(a), is_size(c2)
+                if sa == sb:
+                    continue
+                if sa:
+                    a, c2, op = c2, a, SWAP[op]
+                if not is_coord(a):
+                    continue
+                n += 1
+                k += 1
+                ok = op in ('Ge', 'Lt')
+                ctx.inst(R, 'edge-compare:%s#%d' % (short, k), ok,
+                         'coordinate %s image size: a coordinate equal to the size counts as outside' % ('>=' if op == 'Ge' else '<') if ok else
+                         'a coordinate is compared with the image height / width using %s: a shape whose nearest coordinate equals the size lies wholly outside the image but is treated as touching it, so clamping its end points paints the last row / column (pixels outside the shape\'s bounds)' % ('>' if op == 'Gt' else '<='),
+                         '%s:%s' % (f.loc().rsplit(':', 1)[0] if f.loc() else '', st[3]))
+    ctx.floor(R, 'coordinate-against-size comparisons', n, 2)
+    # the clamp that form (c) relies on: its upper bound is size - 1, the last valid coordinate
+    m = 0
+    for f in fns:
+        if not f.path.endswith('drawing::clamp_to_bounds'):
+            continue
+        for c in f.calls():
+            if re.search(r'::clamp$', c.callee or '') and len(c.args) >= 3:
+                m += 1
+                og = _deep_origins(f, c.args[2])
+                sub = any((o[0] == 'call' and re.search(r'::(saturating_sub|checked_sub|wrapping_sub)$', o[1] or '')) or (o[0] == 'binop' and 'Sub' in str(o[1])) for o in og)
+                par = any(o[0] == 'param' and o[1] in (1, 2) for o in og)
+                ctx.inst(R, 'clamp-upper-is-size-minus-1#%d' % m, sub and par,
+                         'clamp_to_bounds clamps to [0, size - 1]' if sub and par else
+                         'clamp_to_bounds clamps a coordinate to an upper bound that is not size - 1 (size itself is one past the last row / column): image[p.coord()] then panics for a line that ends beyond the image', c.loc())
+    ctx.floor(R, 'clamp calls in clamp_to_bounds', m, 2)
+
+
+def fill_iter(ctx, fb, fns):
+    """FillIter::next loops until no edge is active and leaves a scan line when the cursor meets bounds.right(); for an
+    empty bounding rect the cursor starts AT the right bound, so an equality test after the increment never fires and the
+    loop runs to i32::MAX.  Either the test is an inequality, or new() drops the edges of an empty polygon."""
+    R = 'C36.fill-iter'
+    nx = [f for f in fns if re.search(r'FillIter as core::iter::traits::iterator::Iterator>::next$', f.path)]
+    nw = [f for f in fns if f.path.endswith('FillIter::new')]
+    if not ctx.anchor(R, 'FillIter::next and FillIter::new', bool(nx) and bool(nw)):
+        return
+    f = nx[0]
+    tests = []
+    for i, b in enumerate(f.bbs):
+        if b.get('c') or i not in f.live():
+            continue
+        for st in b['s']:
+            if st[0] == '=' and st[2][0] == 'bin' and st[2][1] in ('Eq', 'Ne', 'Lt', 'Le', 'Gt', 'Ge'):
+                op, a, c2 = st[2][1], st[2][2], st[2][3]
+                ra = any(o[0] == 'call' and re.search(r'Rect::<.*>::right$|Rect::right$', o[1] or '') for o in f.origins(a))
+                rb = any(o[0] == 'call' and re.search(r'Rect::<.*>::right$|Rect::right$', o[1] or '') for o in f.origins(c2))
+                if ra == rb:
+                    continue
+                if ra:
+                    op = {'Lt': 'Gt', 'Gt': 'Lt', 'Le': 'Ge', 'Ge': 'Le'}.get(op, op)
+                tests.append((op, st[3]))
+    if not ctx.anchor(R, 'scan line end test (cursor.x against bounds.right()) in FillIter::next', bool(tests)):
+        return
+    g = nw[0]
+    drops = any(re.search(r'Vec::<.*>::(clear|truncate)$', c.callee or '') and guards_call(g, c.bb, ('re:Rect::<.*>::is_empty$', 're:Rect::is_empty$'), True) for c in g.calls())
+    for k, (op, line) in enumerate(tests):
+        ok = op in ('Ge', 'Gt') or drops
+        ctx.inst(R, 'scanline-end-reached-or-passed#%d' % (k + 1), ok,
+                 ('the scan line ends when cursor.x %s bounds.right()' % {'Ge': '>=', 'Gt': '>'}.get(op, op)) if op in ('Ge', 'Gt') else
+                 ('equality test, but new() clears the edge list of a polygon with an empty bounding rect' if drops else
+                  'FillIter::next ends a scan line only when cursor.x == bounds.right() after the increment, and new() puts the cursor AT bounds.right() for an empty bounding rect while still activating the edges: a zero-width polygon (two points on a vertical line, or a wide line whose rotated rect collapses) makes fill_iter / draw_line run until i32 overflows'),
+                 '%s:%s' % (f.loc().rsplit(':', 1)[0], line))
 
 
 def gi_same(f, op, call):
